@@ -16,18 +16,20 @@ def getPaths (j : Json) : Except String (List Path) := do
   let a ← j.getArr?
   a.toList.mapM getStrs
 
-def getP (j : Json) : Except String P := do
+/-- `{"abs": b, "c": […]}`; a relative path with leading `..` components is `{"abs": false, "up": n, "c": […]}` -/
+def getP (cwd : Path) (j : Json) : Except String P := do
   let isAbs ← j.getObjValAs? Bool "abs"
   let c ← j.getObjVal? "c" >>= getStrs
-  pure (if isAbs then .abs c else .rel c)
+  let up : Nat := match j.getObjValAs? Nat "up" with | .ok n => n | .error _ => 0
+  pure (if isAbs then .abs c else if up > 0 then P.upFrom cwd up c else .rel c)
 
-def optP (j : Json) (k : String) : Except String (Option P) :=
+def optP (cwd : Path) (j : Json) (k : String) : Except String (Option P) :=
   match j.getObjVal? k with
   | .ok Json.null => pure none
-  | .ok v => some <$> getP v
+  | .ok v => some <$> getP cwd v
   | .error _ => pure none
 
-def getCfg (j : Json) : Except String Cfg := do
+def getCfg (cwd : Path) (j : Json) : Except String Cfg := do
   let plats ← j.getObjValAs? (Array Json) "platforms"
   let platforms ← plats.toList.mapM (fun p => do
     let a ← p.getArr?
@@ -36,7 +38,7 @@ def getCfg (j : Json) : Except String Cfg := do
     | _ => throw "platform entry")
   let repoKind ← j.getObjValAs? String "swiftRepo"
   let swiftRepo ← (match repoKind with
-    | "local" => do pure (SwiftRepo.localDir (← j.getObjVal? "swiftLocal" >>= getP))
+    | "local" => do pure (SwiftRepo.localDir (← j.getObjVal? "swiftLocal" >>= getP cwd))
     | "git" => pure SwiftRepo.gitPath
     | "url" => pure SwiftRepo.url
     | k => throw s!"swiftRepo {k}")
@@ -45,13 +47,13 @@ def getCfg (j : Json) : Except String Cfg := do
     target := ← j.getObjValAs? String "target"
     version := ← j.getObjValAs? String "version"
     configuration := ← j.getObjValAs? String "configuration"
-    out := ← j.getObjVal? "out" >>= getP
+    out := ← j.getObjVal? "out" >>= getP cwd
     platforms := platforms
     clean := ← j.getObjValAs? Bool "clean"
     templates := ← j.getObjVal? "templates" >>= getPaths
     distFiles := ← j.getObjVal? "distFiles" >>= getPaths
     netVersion := ← j.getObjValAs? String "netVersion"
-    readme := ← optP j "readme"
+    readme := ← optP cwd j "readme"
     mavenRemote := ← j.getObjValAs? Bool "mavenRemote"
     nugetLocal := ← j.getObjValAs? Bool "nugetLocal"
     swiftRepo := swiftRepo }
@@ -99,9 +101,9 @@ def pathsOr (j : Json) (k : String) : Except String (List Path) :=
 /-- `c20.run`: `phase = "package"` runs all `build` calls and `package`; `phase = "publish"` first runs that with
     succeeding tools, applies the harness' edits to the tree (`remove`, `add`), then runs `publish` under the fault. -/
 def runOp (req : Json) : Except String Json := do
-  let cfg ← req.getObjVal? "cfg" >>= getCfg
-  let phase ← req.getObjValAs? String "phase"
   let cwd ← req.getObjVal? "cwd" >>= getStrs
+  let cfg ← req.getObjVal? "cfg" >>= getCfg cwd
+  let phase ← req.getObjValAs? String "phase"
   let files ← pathsOr req "files"
   let orc ← getOracle req
   let w0 : World := { cwd := cwd, files := files, dirs := [], flags := [], calls := [] }
@@ -139,7 +141,8 @@ def specOp (req : Json) : Except String Json := do
     cwdAfter := ← o.getObjVal? "cwdAfter" >>= getStrs
     outBefore := ← o.getObjVal? "outBefore" >>= getPaths
     outAfter := ← o.getObjVal? "outAfter" >>= getPaths
-    ranIn := ← o.getObjVal? "ranIn" >>= getPaths }
+    ranIn := ← o.getObjVal? "ranIn" >>= getPaths
+    workRoots := ← pathsOr o "workRoots" }
   -- a set of faults: `faults` = the failing points (ascending) as read off the stub log; the first unhandled one counts
   let faults : Option (List FaultPt) ← (match req.getObjVal? "faults" with
     | .ok (Json.arr a) => do
